@@ -222,6 +222,8 @@ class Path:
             return ("g", CANON_MODULES.get(d) or d)
         if base == ("s", "self") and self.I.cls and self.I.method(name) is not None:
             return self._fnval(self.I.method(name), None, base)
+        if (base == ("s", "self") or base == ("g", self.I.cls)) and self.I.cls and self.I.classconst(name) is not None:
+            return self.eval(self.I.classconst(name), Frame(rel=self.I.rel))       # literal table kept as a class attribute
         r = ("attr", self._cur(base), name)
         return self.I.pin(self, r)
 
@@ -1228,6 +1230,21 @@ class Interp:
                 elif isinstance(st, ast.AnnAssign) and isinstance(st.target, ast.Name) and st.target.id == name and st.value is not None:
                     v = st.value
             self._mc[key] = v
+        return self._mc[key]
+
+    def classconst(self, name):
+        """value expression of a name bound exactly once, to a literal, in the body of the anchored class"""
+        key = ("classconst", name)
+        if key not in self._mc:
+            v, n = None, 0
+            c = self.ctx.src.mod(self.rel).classes.get(self.cls)
+            for st in (c.body if c is not None else ()):
+                if isinstance(st, ast.Assign) and len(st.targets) == 1 and isinstance(st.targets[0], ast.Name) and st.targets[0].id == name:
+                    v, n = st.value, n + 1
+                elif isinstance(st, ast.AnnAssign) and isinstance(st.target, ast.Name) and st.target.id == name and st.value is not None:
+                    v, n = st.value, n + 1
+            ok = n == 1 and all(isinstance(x, (ast.Constant, ast.Tuple, ast.List, ast.Dict, ast.Load, ast.UnaryOp, ast.USub)) for x in ast.walk(v))
+            self._mc[key] = v if ok else None
         return self._mc[key]
 
     def modimports(self, rel):
